@@ -59,6 +59,8 @@ def real_hooks():
                     real = None
                 if real is not None:
                     break
+        if isinstance(cls, type):
+            real = cls
         o = real.__new__(real) if isinstance(real, type) else O()
         o.__dict__.update(attrs)
         return o
